@@ -91,6 +91,22 @@ func (g *histGen) mod(t *rapid.T, si int, seq uint32, ev *Ev) (model.Op, bool) {
 		if len(dl) == 0 {
 			return op, false
 		}
+		if rapid.IntRange(0, 4).Draw(t, "ulfar") == 0 {
+			// the uplink FAR (towards the core) changes its action
+			var ul []int
+			for i, f := range s.fars {
+				if f.ID%2 == 1 {
+					ul = append(ul, i)
+				}
+			}
+			if len(ul) > 0 {
+				i := ul[rapid.IntRange(0, len(ul)-1).Draw(t, "ulfari")]
+				nf := model.FAR{ID: s.fars[i].ID, Action: rapid.SampledFrom([]uint8{model.ActFORW, model.ActDROP}).Draw(t, "ulaction"), HasFwd: true, DstIf: model.IfCore}
+				op.UpdFARs = []model.FAR{nf}
+				s.fars[i] = nf
+				return op, true
+			}
+		}
 		i := dl[rapid.IntRange(0, len(dl)-1).Draw(t, "fari")]
 		nf := genDLFAR(t, g.knobs, s.ctx, s.fars[i].ID)
 		nf.HasFwd = true // Update FAR must carry Update Forwarding Parameters
